@@ -60,8 +60,21 @@ def parse(output):
 
 
 def playback_values(output):
+    """byte lists of the first concrete-playback test that belongs to a FAILED check. Kani prints one test per
+    check with a trace, and the witness of a satisfied `cover` comes first: that one is a benign run, not a
+    counterexample, and must be skipped."""
+    blocks = re.split(r"Concrete playback unit test for", output)[1:] or [output]
+    chosen = None
+    for b in blocks:
+        m = re.search(r"Check for `(\w+)`", b)
+        if m and m.group(1) == "cover":
+            continue
+        chosen = b
+        break
+    if chosen is None:
+        chosen = blocks[0]
     vals = []
-    for m in re.finditer(r"vec!\[([\d,\s]*)\],", output):
+    for m in re.finditer(r"vec!\[([\d,\s]*)\],", chosen):
         body = m.group(1).strip()
         vals.append([int(x) for x in body.split(",") if x.strip()] if body else [])
     return vals
